@@ -75,7 +75,7 @@ class Contract(object):
     return self
 
   def ghost(self, name, kind):
-    self.ghost_[name] = parse_kind(kind)
+    self.ghost_[name] = 'seq' if kind == 'seq' else parse_kind(kind)
     return self
 
   def setup(self, fn):
@@ -112,10 +112,14 @@ class Registry(object):
     self.lemmas = []
     self.extra_units = []        # custom verification units (callables)
     self.closed_classes = set()
+    self.class_invariants = {}       # class name -> [spec expr over self]: shape invariants assumed when an object is reached
     self.private_fields = set()      # (class, field) never written by opaque user code (frame assumption)
     self.private_exceptions = set()  # exception classes user code never raises  # classes whose instance attributes are exactly the declared shape + class members
 
   # ---- declarations
+  def invariant(self, clsname, expr):
+    self.class_invariants.setdefault(clsname, []).append(expr)
+
   def private(self, clsname, *fields):
     for f in fields:
       self.private_fields.add((clsname, f))
